@@ -43,7 +43,7 @@ def gen(rng, idx, tier):
                 stream.append({"kind": "store_rq"})
             else:
                 stream.append({"kind": "pending", "ident": "ok" if op == "find" else "none"})
-    end = rng.choice(["final", "final", "final", "final", "invalid", "silence", "abort"] + (["wrong_type"] if op in ("find", "get", "move") else []))
+    end = rng.choice(["final", "final", "final", "final", "invalid", "silence", "abort", "partial"] + (["wrong_type"] if op in ("find", "get", "move") else []))
     if end == "final":
         pool = {"find": [0x0000, 0xA700, 0xFE00, 0xC001], "get": [0x0000, 0xB000, 0xA702, 0xFE00], "move": [0x0000, 0xB000, 0xA801, 0xFE00]}.get(op, [0x0000, 0x0110, 0xB000, 0xC000])
         st = rng.choice(pool)
@@ -162,6 +162,12 @@ def execute(sc, ctx):
                     p.send(b)
             elif k == "silence":
                 pass
+            elif k == "partial":
+                # the first P-DATA-TF of a response (its command set, announcing a data set) and then nothing more
+                ident = R.FIND_DS
+                pdus = W.fragment(cx, W.rsp(RSP_NAME[op], mid, 0xFF00 if op in ("find", "get", "move") else 0x0000, SOP[op], True,
+                                            extra={W.T_AFFECTED_INSTANCE: "1.2.3.4.5"} if op in ("store", "n_get", "n_set") else None), ident)
+                p.send(pdus[0])
             elif k == "abort":
                 p.send(W.abort(0, 0))
         ctx.obs["peer_end"] = p.drain(3 * sc["dimse"] + 0.3)
